@@ -16,7 +16,7 @@ RULE = ("(a) Hypothesis-generated rank-planted problems (as C01) are solved by t
         "or a non-resolving subset; distinct by sha1 of the case.")
 ASSUMPTIONS = ["numpy condition number as the scale of the tolerance",
                "non-resolving subsets are exact by construction (columns outside the support of the null space, or fewer than the defect)"]
-REQUIRED_CLASSES = ["d>0", "band>0", "subset", "nonresolving"]
+REQUIRED_CLASSES = ["d>0", "band>0", "subset", "nonresolving", "net.free", "net.fixed", "net.blunder", "net.correlated"]
 
 QUERIES = ["defect", "x", "r", "rtr", "allqxx", "allqbb"]
 
@@ -98,9 +98,111 @@ def nontriv(case):
     return nontrivial(case) or case.get("mode") == "nonres"
 
 
+# ------------------------------------------------------------------ (b) network level, real binary
+
+@st.composite
+def net_case(draw):
+    from .. import gen_net
+    free = draw(st.integers(0, 3)) == 0
+    net = draw(gen_net.determined_network(noise=1, free=free))
+    if not free and draw(st.booleans()):
+        gen_net.add_mixed_points(draw, net)
+    # a gross error beyond tol-abs: the exclusion must not depend on the algorithm either
+    blunder = None
+    if draw(st.integers(0, 3)) == 0:
+        cands = [(ci, oi) for ci, cl in enumerate(net["clusters"]) if cl["k"] in ("obs", "hdiff")
+                 for oi, o in enumerate(cl["obs"]) if cl["k"] == "hdiff" or o["t"] in ("distance", "s-distance")]
+        if cands:
+            blunder = list(draw(st.sampled_from(cands)))
+    band = draw(st.sampled_from([-1, -1, 0, 2]))
+    return {"net": net, "blunder": blunder, "band": band}
+
+
+def oracle_network(c, stats):
+    import copy
+    from .. import gen_net, netmodel as nm, netrun, adjxml
+    from . import c20
+    net = copy.deepcopy(c["net"])
+    red = copy.deepcopy(c["net"])            # what remains once the gross error is excluded must be well-posed too
+    if c["blunder"]:
+        ci, oi = c["blunder"]
+        del red["clusters"][ci]["obs"][oi]
+        red["clusters"][ci]["cov"] = None
+        red["clusters"] = [cl for cl in red["clusters"] if cl["obs"]]
+        if not (c20.well_posed_free(red) if net.get("free") else gen_net.is_determined(red)):
+            stats.label("discarded_ill_posed_after_exclusion")
+            return []
+    if net.get("free"):
+        if not c20.well_posed_free(net):
+            stats.label("discarded_free_not_well_posed")
+            return []
+        stats.label("net.free")
+    elif not gen_net.is_determined(net):
+        stats.label("discarded_not_determined")
+        return []
+    else:
+        stats.label("net.fixed")
+    if c["blunder"]:
+        ci, oi = c["blunder"]
+        net["clusters"][ci]["obs"][oi]["e"] = 2500.0       # mm, tol-abs is 1000
+        stats.label("net.blunder")
+    if any(cl.get("cov") and cl["cov"]["band"] > 0 for cl in net["clusters"]):
+        stats.label("net.correlated")
+    text = nm.gkf_text(net)
+    args = [] if c["band"] == -1 else ["--cov-band", str(c["band"])]
+    X = {}
+    fails = []
+    for alg in ALGS:
+        res = netrun.gama_local(text, ["--algorithm", alg] + args, outputs=("xml",))
+        if res["crash"] is not None:
+            fails.append("net.%s.crash: %s %s" % (alg, res["crash"]["kind"], res["crash"]["frame"]))
+            continue
+        try:
+            X[alg] = adjxml.parse_adjustment(res["xml"] or "")
+        except adjxml.NotWellFormed as e:
+            fails.append("net.%s.xml: %s" % (alg, e))
+    if fails:
+        return fails
+    refused = [a for a in ALGS if "error" in X[a]]
+    if refused and len(refused) < 4:
+        if net.get("free") and refused == ["envelope"]:
+            return ["net.envelope_free: well-posed free network refused by envelope only: %s" % X["envelope"]["error"]["descriptions"]]
+        return ["net.acceptance: refused by %s, adjusted by the others (%s)" % (refused, X[refused[0]]["error"]["descriptions"])]
+    if refused:
+        stats.label("net.all_refused")
+        return []
+    ref = X["gso"]
+    for alg in ("envelope", "cholesky", "svd"):
+        x = X[alg]
+        if net.get("free") and alg == "envelope" and x["summary"]["defect"] != ref["summary"]["defect"]:
+            return ["net.envelope_free: envelope reports defect %d, the others %d" % (x["summary"]["defect"], ref["summary"]["defect"])]
+        fl = c20.tolerant_compare("net.pair.gso.%s" % alg, ref, x, stats, net)
+        # removed points / excluded observations show as different point and observation sets: compare() reports them
+        fails += fl
+        for k in ("fixed", "adjusted"):
+            if [a["id"] for a in ref["coordinates"][k]] != [a["id"] for a in x["coordinates"][k]]:
+                fails.append("net.pair.gso.%s.point_order: %s points differ" % (alg, k))
+        sd_ref = [o.get("stdev") for o in ref["observations"]]
+        sd_x = [o.get("stdev") for o in x["observations"]]
+        if len(sd_ref) == len(sd_x):
+            for a, b in zip(sd_ref, sd_x):
+                if a is not None and b is not None and abs(a - b) > 1e-5 * max(abs(a), abs(b)) + 1e-7:
+                    fails.append("net.pair.gso.%s.obs_stdev: %r vs %r" % (alg, a, b))
+                    break
+        for k in ("aposteriori", "confidence_scale", "ratio"):
+            a, b = ref["summary"].get(k), x["summary"].get(k)
+            if a is not None and b is not None and abs(a - b) > 1e-6 * max(abs(a), abs(b)) + 1e-9:
+                fails.append("net.pair.gso.%s.%s: %r vs %r" % (alg, k, a, b))
+    return fails
+
+
 PARTS = [
     Part("pairwise", strategy=lambda: gen_linear.linear_problem(), oracle=oracle_pairwise,
          nontrivial=nontriv, n={"quick": 5000, "thorough": 40000}),
     Part("nonresolving", strategy=lambda: gen_linear.linear_problem(singular_only=True, minx_mode="nonres"),
          oracle=oracle_pairwise, nontrivial=nontriv, n={"quick": 1500, "thorough": 10000}),
+    Part("network", strategy=net_case, oracle=oracle_network, n={"quick": 3000, "thorough": 25000},
+         nontrivial=lambda c: bool(c["net"].get("free") or c["blunder"] or any(cl.get("cov") for cl in c["net"]["clusters"])),
+         sample=lambda c: {"free": bool(c["net"].get("free")), "blunder": c["blunder"], "band": c["band"],
+                           "points": [p["id"] for p in c["net"]["points"]]}),
 ]
